@@ -312,6 +312,53 @@ func init() {
 			}
 			c.Fact("sessions.legacy_flag", flag)
 		}
+		// requests refused before the session layer: Content-Type, Accept, getServer == nil (POST), Accept (GET); each
+		// check must come before the first read of the session id header and before GetSessionID
+		gate := map[string]any{}
+		for _, g := range []struct{ fn, pre string }{{"serveStatefulPOST", "stateful"}, {"serveStateless", "stateless"}, {"serveStatefulGET", "statefulGET"}} {
+			fd := c.Func(dir, "StreamableHTTPHandler", g.fn)
+			if fd == nil {
+				continue
+			}
+			conds := []struct{ name, cond string }{
+				{"BadContentType", `disablecontenttypecheck != "1" && baseMediaType(req.Header.Get("Content-Type")) != "application/json"`},
+				{"BadAccept", "!jsonOK || !streamOK"},
+				{"NoServer", "server == nil"},
+			}
+			if g.fn == "serveStatefulGET" {
+				conds = []struct{ name, cond string }{{"BadAccept", "!streamOK"}}
+			}
+			var order []string
+			for _, s := range fd.Body.List {
+				if is, ok := s.(*ast.IfStmt); ok {
+					for _, cd := range conds {
+						if c.Src(is.Cond) == cd.cond {
+							e := httpErrorsIn(c, is.Body)
+							_, ret := is.Body.List[len(is.Body.List)-1].(*ast.ReturnStmt)
+							get(g.pre+cd.name, first(e), len(e) == 1 && ret)
+							order = append(order, cd.name)
+						}
+					}
+				}
+				src := c.Src(s)
+				if strings.Contains(src, "req.Header.Get(sessionIDHeader)") && !strings.Contains(src, "legacySessions &&") || strings.HasPrefix(src, "sessionID := req.Header.Get(sessionIDHeader)") {
+					order = append(order, "<reads session id>")
+				}
+				if strings.Contains(src, "GetSessionID()") {
+					order = append(order, "<GetSessionID>")
+				}
+				if strings.Contains(src, "ephemeralConnectOpts(") || strings.Contains(src, "connectStreamable(") {
+					order = append(order, "<connect>")
+				}
+			}
+			gate[g.fn] = order
+			for _, cd := range conds {
+				if _, ok := st[g.pre+cd.name]; !ok {
+					get(g.pre+cd.name, 0, false)
+				}
+			}
+		}
+		c.Fact("sessions.gate_order", gate)
 		// the creation path of a stateful endpoint whose GetSessionID returns "": a temporary session, never published
 		if fd := c.Func(dir, "StreamableHTTPHandler", "serveStatefulPOST"); fd != nil {
 			calls := []string{"<no empty-id branch>"}
